@@ -57,7 +57,8 @@ class C05(Property):
     rule = ("random well-formed DAG workflows (sfv.rt.wfgen; transformers with 1..3 inputs / 1..2 outputs, scatter, gather with known and "
             "unknown size and depth 2, dot products incl. parent-tag broadcast, cartesian products, conditional steps dropping or "
             "defaulting, job pipelines) run on the real StreamFlowExecutor under the default asyncio order and 3 (quick) / 8 (thorough) "
-            "PRNG interleavings each (job completion order included). Every run's per-port {tag: value} map read from token_list must "
+            "PRNG interleavings each (job completion order included; corpus: combinators with one scattered and two plain inputs under all "
+            "6 clock-controlled arrival orders and one data-forced order; a third of the random workflows with slow transformers). Every run's per-port {tag: value} map read from token_list must "
             "equal the Lean denotation `den` of the workflow (driver), whose executable well-formedness hypotheses (wfStruct, wfDyn) must "
             "hold; all runs of a workflow must agree with each other (oracle). Non-trivial = workflow with >= 3 nodes and >= 5 data "
             "tokens in total.")
